@@ -28,7 +28,7 @@ import (
 	"strings"
 )
 
-func init() { generators = append(generators, genIpfixIR) }
+func init() { generators = append(generators, genIpfixIR, genV9IR) }
 
 type irFuncSrc struct{ lean, recv, name string }
 
@@ -43,6 +43,8 @@ type irProfile struct {
 	structs map[string]string
 	// named non-struct types
 	named map[string]string
+	// the package name under which ipfix's InfoModel / ElementKey / Interpret are imported ("" inside package ipfix)
+	ipfixPkg string
 }
 
 var ipfixIRProfile = irProfile{
@@ -74,6 +76,35 @@ var ipfixIRProfile = irProfile{
 	named: map[string]string{"FieldType": ".int"},
 }
 
+var v9IRProfile = irProfile{
+	module:  "V9IR",
+	model:   "Vflow.Model.IpfixIR",
+	dir:     "netflow/v9",
+	files:   []string{"netflow/v9/decoder.go", "ipfix/rfc5102_model.go"},
+	decoder: "netflow/v9/decoder.go",
+	funcs: []irFuncSrc{
+		{"minRecordLen", "TemplateRecord", "minRecordLen"},
+		{"decodeData", "Decoder", "decodeData"},
+		{"fieldSpecUnmarshal", "TemplateFieldSpecifier", "unmarshal"},
+		{"tplHeaderUnmarshal", "TemplateHeader", "unmarshal"},
+		{"tplHeaderUnmarshalOpts", "TemplateHeader", "unmarshalOpts"},
+		{"tplRecordUnmarshal", "TemplateRecord", "unmarshal"},
+		{"tplRecordUnmarshalOpts", "TemplateRecord", "unmarshalOpts"},
+		{"setHeaderUnmarshal", "SetHeader", "unmarshal"},
+		{"pktHeaderUnmarshal", "PacketHeader", "unmarshal"},
+		{"pktHeaderValidate", "PacketHeader", "validate"},
+		{"decodeSet", "Decoder", "decodeSet"},
+		{"decode", "Decoder", "Decode"},
+	},
+	structs: map[string]string{
+		"TemplateFieldSpecifier": ".fieldSpec", "TemplateHeader": ".tplHeader9", "TemplateRecord": ".tplRecord",
+		"SetHeader": ".setHeader", "PacketHeader": ".pktHeader", "InfoElementEntry": ".elem", "DecodedField": ".dfield",
+		"Message": ".message9",
+	},
+	named:    map[string]string{"FieldType": ".int"},
+	ipfixPkg: "ipfix",
+}
+
 // ---- types ----
 
 const tyUntyped = "untyped" // an integer constant: takes the type of the other operand
@@ -100,6 +131,15 @@ func (g *irGen) tyOfTypeExpr(e ast.Expr) string {
 		}
 		if ty, ok := g.p.named[t.Name]; ok {
 			return ty
+		}
+	case *ast.SelectorExpr:
+		if id, ok := t.X.(*ast.Ident); ok && g.p.ipfixPkg != "" && id.Name == g.p.ipfixPkg && id.Obj == nil {
+			if ty, ok := g.p.structs[t.Sel.Name]; ok {
+				return ty
+			}
+			if ty, ok := g.p.named[t.Sel.Name]; ok {
+				return ty
+			}
 		}
 	case *ast.StarExpr:
 		if id, ok := t.X.(*ast.Ident); ok {
@@ -289,6 +329,14 @@ func (g *irGen) pkgLevel(e ast.Expr, name string) bool {
 	return id.Obj == nil || g.vars[id.Obj] == nil
 }
 
+// ipfixName: `name` of package ipfix — a package-level identifier inside that package, `ipfix.name` elsewhere
+func (g *irGen) ipfixName(e ast.Expr, name string) bool {
+	if g.p.ipfixPkg == "" {
+		return g.pkgLevel(e, name)
+	}
+	return pkgSel(e, g.p.ipfixPkg, name)
+}
+
 var convTypes = map[string]string{"int": ".int", "uint8": ".u8", "uint16": ".u16", "uint32": ".u32"}
 
 // expr returns the Lean term and the IR type ("" when unknown)
@@ -346,7 +394,7 @@ func (g *irGen) expr(e ast.Expr) (string, string) {
 }
 
 var binOps = map[token.Token]string{
-	token.ADD: ".add", token.SUB: ".sub", token.AND: ".band",
+	token.ADD: ".add", token.SUB: ".sub", token.AND: ".band", token.QUO: ".quo",
 	token.LSS: ".lt", token.LEQ: ".le", token.GTR: ".gt", token.GEQ: ".ge", token.EQL: ".eq", token.NEQ: ".ne",
 	token.LAND: ".land", token.LOR: ".lor",
 }
@@ -380,7 +428,7 @@ func (g *irGen) binary(x *ast.BinaryExpr) (string, string) {
 		}
 		if isIntTy(t) && (ta == t || ta == tyUntyped) && (tb == t || tb == tyUntyped) {
 			switch x.Op {
-			case token.ADD, token.SUB, token.AND:
+			case token.ADD, token.SUB, token.AND, token.QUO:
 				return fmt.Sprintf("(.bin %s %s %s %s)", op, t, a, b), t
 			default:
 				return fmt.Sprintf("(.bin %s %s %s %s)", op, t, a, b), ".bool"
@@ -457,8 +505,13 @@ func (g *irGen) composite(x *ast.CompositeLit) (string, string) {
 			}
 			got[k.Name] = v
 		}
-		if len(got) == 3 && got["ID"] != "" && got["Value"] != "" && got["EnterpriseNo"] != "" {
+		nf := len(g.fields["DecodedField"])
+		if nf == 3 && len(got) == 3 && got["ID"] != "" && got["Value"] != "" && got["EnterpriseNo"] != "" {
 			return fmt.Sprintf("(.mkField %s %s %s)", got["ID"], got["Value"], got["EnterpriseNo"]), ty
+		}
+		// NetFlow v9: DecodedField has no enterprise number
+		if nf == 2 && len(got) == 2 && got["ID"] != "" && got["Value"] != "" {
+			return fmt.Sprintf("(.mkField2 %s %s)", got["ID"], got["Value"]), ty
 		}
 	}
 	return g.unrecS(x), ""
@@ -472,6 +525,12 @@ func (g *irGen) callExpr(x *ast.CallExpr) (string, string) {
 			if ty == ".errors" {
 				return "(.combine " + a + ")", ".error"
 			}
+		}
+		return g.unrecS(x), ""
+	}
+	if g.p.ipfixPkg != "" && pkgSel(x.Fun, g.p.ipfixPkg, "Interpret") && len(x.Args) == 2 {
+		if s, ty, ok := g.interpretCall(x); ok {
+			return s, ty
 		}
 		return g.unrecS(x), ""
 	}
@@ -499,14 +558,9 @@ func (g *irGen) callExpr(x *ast.CallExpr) (string, string) {
 			if et := elemTy(ta); et != "" && et == tb {
 				return fmt.Sprintf("(.append %s %s)", a, b), ta
 			}
-		case id.Name == "Interpret" && len(x.Args) == 2:
-			// Interpret(&b, t)
-			if u, ok := x.Args[0].(*ast.UnaryExpr); ok && u.Op == token.AND {
-				a, ta := g.expr(u.X)
-				b, tb := g.expr(x.Args[1])
-				if ta == ".bytes" && tb == ".int" {
-					return fmt.Sprintf("(.interpret %s %s)", a, b), ".any"
-				}
+		case id.Name == "Interpret" && len(x.Args) == 2 && g.p.ipfixPkg == "":
+			if s, ty, ok := g.interpretCall(x); ok {
+				return s, ty
 			}
 		}
 		return g.unrecS(x), ""
@@ -528,6 +582,18 @@ func (g *irGen) callExpr(x *ast.CallExpr) (string, string) {
 		}
 	}
 	return g.unrecS(x), ""
+}
+
+// interpretCall: Interpret(&b, t)
+func (g *irGen) interpretCall(x *ast.CallExpr) (string, string, bool) {
+	if u, ok := x.Args[0].(*ast.UnaryExpr); ok && u.Op == token.AND {
+		a, ta := g.expr(u.X)
+		b, tb := g.expr(x.Args[1])
+		if ta == ".bytes" && tb == ".int" {
+			return fmt.Sprintf("(.interpret %s %s)", a, b), ".any", true
+		}
+	}
+	return "", "", false
 }
 
 // ---- places ----
@@ -612,11 +678,11 @@ func (g *irGen) call(e ast.Expr) (irCall, bool) {
 	var none irCall
 	// InfoModel[ElementKey{…}] (only as the right-hand side of a two-value assignment: checked by the caller)
 	if ix, ok := e.(*ast.IndexExpr); ok {
-		if !g.pkgLevel(ix.X, "InfoModel") {
+		if !g.ipfixName(ix.X, "InfoModel") {
 			return none, false
 		}
 		cl, ok := ix.Index.(*ast.CompositeLit)
-		if !ok || !g.pkgLevel(cl.Type, "ElementKey") || len(cl.Elts) != 2 {
+		if !ok || !g.ipfixName(cl.Type, "ElementKey") || len(cl.Elts) != 2 {
 			return none, false
 		}
 		got := map[string]string{}
@@ -1340,6 +1406,10 @@ func genIR(repo string, p *irProfile, from string) (genFile, error) {
 	fmt.Fprintf(&b, "/-- functions of %s that are not translated -/\ndef otherFuncs : List String := [%s]\n", p.decoder, strings.Join(others, ", "))
 	b.WriteString(footer(p.module))
 	return genFile{p.module, b.String()}, nil
+}
+
+func genV9IR(repo string) (genFile, error) {
+	return genIR(repo, &v9IRProfile, "netflow/v9/decoder.go (the decoder's functions, statement by statement) and the struct declarations of ipfix/rfc5102_model.go")
 }
 
 func genIpfixIR(repo string) (genFile, error) {
